@@ -64,7 +64,10 @@ static void track_free(void *p) {
   if (vh_ncalls < VH_MAXCALLS) { vh_calls[vh_ncalls].kind = 'f'; vh_calls[vh_ncalls].size = n; vh_ncalls++; }
 }
 
+int vh_die_fd = -1;
+/* requests are numbered while the library is executing a call (vh_lib_enter .. vh_lib_leave) */
 static int should_fail(const char *what, size_t n) {
+  if (!inlib) return 0;
   long c = __atomic_add_fetch(&vh_alloc_count, 1, __ATOMIC_RELAXED);
   if (vh_alloc_log) {
     char buf[96];
@@ -135,6 +138,7 @@ void __wrap_m4ri_die(const char *fmt, ...) {
     siglongjmp(CTX->jb, 1);
   }
   /* unarmed: behave like the real handler, but announce that the library's handler ran */
+  if (vh_die_fd >= 0) { if (write(vh_die_fd, "D", 1) < 0) {} }
   fprintf(stderr, "VHDIE %s\n", buf);
   fflush(stderr);
   abort();
